@@ -277,12 +277,12 @@ def kind(o):
 
 
 def cases(tier):
-  tops = [c for k in (1, 2, 3) for c in itertools.combinations(TOP_MENU, k)]
-  mids = [c for k in (1, 2) for c in itertools.combinations(MID_MENU, k)]
+  tops = [c for k in ((1, 2, 3) if tier == "quick" else (1, 2, 3, 4)) for c in itertools.combinations(TOP_MENU, k)]
+  mids = [c for k in ((1, 2) if tier == "quick" else (1, 2, 3)) for c in itertools.combinations(MID_MENU, k)]
   out = []
   for t in tops:
     if "mid" in t or "midlist" in t:
-      ms = mids if tier == "thorough" or len(t) <= 2 else mids[::5]
+      ms = mids if (tier == "thorough" and len(t) <= 3) or len(t) <= 2 else mids[::5]
       for m in ms: out.append((t, m))
     else:
       out.append((t, ("bits",)))
